@@ -22,6 +22,9 @@ def diagnostics : List String :=
     "C18 callerHolds entry no longer justified by the call rows: " ++ nameOf e.fn ++ " under " ++ nameOf e.lock)) ++
   ((calls.filter (reentrant tables acquires)).map (fun c =>
     "C18 re-entrant lock: " ++ nameOf c.caller ++ " calls " ++ nameOf c.callee ++ " (line " ++ toString c.line ++ ") holding a mutex the callee locks again")) ++
+  ((unguardedAccesses.filter (fun u => ordered.any (fun k => k.field == u.field && (k.fnA == u.fn || k.fnB == u.fn)))).map (fun u =>
+    "C18 " ++ nameOf u.field ++ " is accessed in " ++ nameOf u.fn ++ " (line " ++ toString u.line ++
+    ") on a path an ERROR verdict of the query can take: the callback that writes it may still be running (the `ordered` entry holds for the nil verdict only)")) ++
   (if callbacks == reviewedCallbacks then [] else
     ["C18 work-manager callbacks changed: extracted [" ++ ", ".intercalate (callbacks.map (fun c => nameOf c.fn ++ (if c.multi then " (multi)" else " (single)"))) ++ "]"]) ++
   (foreignUnlocks.map (fun u => "C18 " ++ nameOf u.fn ++ " unlocks " ++ nameOf u.lock ++ " without having locked it: its callers' lock regions are opened")) ++
@@ -96,6 +99,14 @@ theorem C18_no_reentrant_lock : calls.all (fun c => !reentrant tables acquires c
 `query.Request.HandleResp` (extracted) run on worker goroutines; everything their receiver structs hold and every
 local variable their closures capture and write is part of the access table above. -/
 theorem C18_callbacks_reviewed : callbacks = reviewedCallbacks := by decide +kernel
+
+/-- **Verdict ordering holds on success only**: every access, outside the callbacks, to state that a work-manager
+callback writes and that an `ordered` entry covers is made before the query is issued or behind
+`if err != nil { return }` on the verdict received from the query's error channel — never on a path an error verdict
+(timeout, retry limit, shutdown: sent while a worker may still be inside the callback) can take. -/
+theorem C18_ordered_only_on_success :
+    ordered.all (fun k => !unguardedAccesses.any (fun u => u.field == k.field && (u.fn == k.fnA || u.fn == k.fnB))) = true := by
+  decide +kernel
 
 /-- no stale `ordered` entry: each one names a real conflicting pair of rows without a common mutex -/
 theorem C18_ordered_used :
